@@ -61,6 +61,19 @@ entry(
     "DESIGN.md section 2, C20",
 )
 
+entry(
+    "C11",
+    "Hypothesis property-based and history testing against freshly constructed generators (metamorphic) and twin runs with distinct seed objects",
+    "Generated inputs (3 generators x 8 model classes x dim 1-3 x seeds up to 2^32 x evaluation variants: permutation, subset, batches, "
+    "structured vs list, meshio points/centroids, store names) are compared point by point with fresh single-point evaluations; generated "
+    "histories of calls, in-place parameter changes/restorations, setter and update() calls are followed by a comparison with a freshly built "
+    "SRF and by a consistency check of the generator's arrays; the same history with equal seeds as distinct objects must give identical "
+    "output incl. nugget noise. Exploration of bounded histories.",
+    "Trusted: a fresh SRF with copied model, same generator kwargs and seed defines the expected value; changes inside numpy.isclose's "
+    "window are excluded (known finding K7, probed on every run).",
+    "DESIGN.md section 2, C11",
+)
+
 
 def main():
     props = [json.loads(l) for l in open(os.path.join(VERIF, "properties.jsonl"))]
